@@ -18,21 +18,22 @@ func (self Node) iterElems() (fi listIterator) {
 		fi.Err = wrapError(meta.ErrRead, "ListIterator.iterElems: consume list tag error.", err)
 		return
 	} else {
-		if wtyp != proto.BytesType {
-			fi.Err = wrapError(meta.ErrUnsupportedType, "ListIterator.iterElems: wire type is not bytes.", nil)
+		fi.et = proto.Type(self.et)
+		kind := fi.et.TypeToKind()
+		fi.ewt = proto.Kind2Wire[kind]
+		// scalar elements are not always packed ([packed = false]): the wire type of the tag tells the layout
+		fi.isPacked = self.et.IsPacked() && wtyp == proto.BytesType
+		if !fi.isPacked && wtyp != fi.ewt {
+			fi.Err = wrapError(meta.ErrUnsupportedType, "ListIterator.iterElems: wire type is neither bytes nor the element's.", nil)
 			return
 		}
-		
+
 		size, err := self.Len()
 		if err != nil {
 			fi.Err = wrapError(meta.ErrRead, "ListIterator.iterElems: get list size error.", err)
 			return
 		}
 		fi.size = size
-		fi.et = proto.Type(self.et)
-		kind := fi.et.TypeToKind()
-		fi.ewt = proto.Kind2Wire[kind]
-		fi.isPacked = self.et.IsPacked()
 	}
 	return
 }
